@@ -311,7 +311,7 @@ def gen(rng, tier):
             for k in (1, 2):
                 heldout.append({"kind": "heldout", "model": model, "solver": solver, "k": k, "L": rng.choice([2, 3]),
                                 "sub": rng.randrange(1 << 30)})
-    for _ in range(4 if tier == "quick" else 6 * n):
+    for _ in range(8 if tier == "quick" else 6 * n):
         solver = rng.choice(["MCWF", "TJM"])
         k = rng.choice([1, 2, 2, 3])
         if tier == "quick" and solver == "TJM" and k == 3:
